@@ -4,6 +4,7 @@ CONSTANTS
   Keys = {"k1"}
   Vals = {"a", "b"}
   KvChecksNonce = TRUE
+  FailedCreateConsumesNonce = TRUE
   EmptyTxInvalid = TRUE
   AdminBoundsChecked = TRUE
   BlockSet <- BlocksM
